@@ -426,6 +426,81 @@ class InverseDictLookupSpec(OpExecSpec):
         return {"err": toks[0] == "err", "r": I("i64", int(toks[1]))}
 
 
+class DictLookupSpec(OpExecSpec):
+    """DictLookup<T>::execute (query-side decoding of dictionary-coded string columns): row j of the output is the dictionary
+    entry number indices[j], byte for byte"""
+    diff_cases = 2
+
+    def instantiations(self, tier):
+        return [{"T": "u8", "nat": "op_dict_lookup_u8"}] + ([{"T": "u16", "nat": "op_dict_lookup_u16"}] if tier == "thorough" else [])
+
+    def op_type(self, inst):
+        return f"DictLookup<{inst['T']}>"
+
+    def extra_stubs(self, inst, shape, inp):
+        from .operators3 import extra_scratch_stubs
+        return extra_scratch_stubs()
+
+    def shapes(self, tier, inst):
+        out = []
+        for d in range(len(DICTS) if tier == "thorough" else 3):
+            for n in ((0, 2) if tier == "quick" else (0, 1, 3)):
+                out.append((d, n))
+        return out
+
+    def sym_inputs(self, inst, shape):
+        d, n = shape
+        idx = [sym(inst["T"], f"i{k}") for k in range(n)]
+        return {"idx": idx}, [z3.ULT(x.v, len(DICTS[d])) for x in idx]
+
+    def op_fields(self, ctx, inst):
+        return {"indices": bufref(ctx, 0), "dict_indices": bufref(ctx, 1), "dict_data": bufref(ctx, 2), "output": bufref(ctx, 3)}
+
+    def buffers(self, inst, shape, inp):
+        d, n = shape
+        b = Buffers()
+        ranges, backing = [], []
+        for s in DICTS[d]:
+            ranges.append(I("u64", (len(backing) << 24) + len(s)))
+            backing += [I("u8", x) for x in s]
+        b.vec(0, list(inp["idx"]), inst["T"])
+        b.vec(1, ranges, "u64")
+        b.vec(2, backing, "u8")
+        b.vec(3, [], "&str")
+        return b
+
+    def view(self, inst, shape, value, state):
+        out = []
+        for r in self.out_vec(state, 3):
+            el, lo, hi = seq_of(r)
+            out.append(bytes(e.v for e in el[lo:hi]))
+        return {"err": self.result_is_err(value), "out": out}
+
+    def post(self, inst, shape, inp, value, state=None):
+        v = self.view(inst, shape, value, state) if state is not None else value
+        d, n = shape
+        conds = [("lookup never fails", B(not v["err"])), ("one string per row", B(len(v["out"]) == n))]
+        if len(v["out"]) != n:
+            return conds
+        for j in range(n):
+            for k, s in enumerate(DICTS[d]):
+                conds.append((f"row {j}: index {k} decodes to dictionary entry {k}", implies(binop("Eq", inp["idx"][j], I(inst["T"], k)), B(v["out"][j] == s))))
+        return conds
+
+    def random_inputs(self, rng, inst, shape):
+        d, n = shape
+        return {"idx": [I(inst["T"], rng.randrange(len(DICTS[d]))) for _ in range(n)]}
+
+    def native(self, inst, shape, inp):
+        if inp is None:
+            return (inst["nat"], [])
+        d, n = shape
+        return (inst["nat"], [",".join(x.hex() for x in DICTS[d]), fmt_ints(inp["idx"])])
+
+    def parse_native(self, inst, shape, toks):
+        return {"err": toks[0] == "err", "out": [] if toks[1] == "-" else [bytes.fromhex(h) if h != "_" else b"" for h in toks[1].split(",")]}
+
+
 # ----------------------------------------------------------------------------------------------------
 # C03.b  constant translated into the encoding domain: Codec::encode_int
 # ----------------------------------------------------------------------------------------------------
